@@ -94,11 +94,14 @@ def build_impl(ctx=None):
         if not os.path.exists(done):
             if os.path.exists(base):
                 shutil.rmtree(base)
-            # drop older builds (disk hygiene): keep the three most recent
-            olds = sorted((d for d in glob.glob(os.path.join(CACHE, "impl", "*")) if os.path.isdir(d)),
-                          key=os.path.getmtime)
-            for d in olds[:-3]:
-                shutil.rmtree(d, ignore_errors=True)
+            # disk hygiene: drop builds not used for two hours (a use touches DONE)
+            now = time.time()
+            for d in glob.glob(os.path.join(CACHE, "impl", "*")):
+                dn = os.path.join(d, "DONE")
+                if os.path.isdir(d) and (not os.path.exists(dn) or now - os.path.getmtime(dn) > 7200):
+                    if not os.path.exists(dn) and now - os.path.getmtime(d) < 900:
+                        continue      # being built by someone else under another lock-free path
+                    shutil.rmtree(d, ignore_errors=True)
             for mode in ("compiled", "pure"):
                 dst = os.path.join(base, mode, "xdeps")
                 shutil.copytree(os.path.join(REPO, "xdeps"), dst,
@@ -116,6 +119,8 @@ def build_impl(ctx=None):
                 raise InfraError("gcc failed:\n" + r.stderr[-3000:])
             os.remove(os.path.join(cdir, "refs.c"))
             open(done, "w").write(hh)
+        else:
+            os.utime(done, None)
     return {"compiled": os.path.join(base, "compiled"), "pure": os.path.join(base, "pure")}
 
 
